@@ -47,6 +47,7 @@ CLAIMED.update({
 CLAIMED["C10"] = ("R+S", "deterministic-simulation harness run free under the Go race detector (engine R: real parallelism, actors of one instant start together, SimConn.Write copies packets in two halves) plus the wire-framing rule on every connection of engine S runs", "exploration",
          "race(pair): race-detector reports whose racing accesses are in library code; interleaved / wire-undecodable: the transport byte stream is a concatenation of whole, strictly decodable packets", "5 and 7/C10")
 CLAIMED["C15"] = ("S+R",) + CLAIMED["C15"][1:]
+CLAIMED["C07"] = ("S+R", CLAIMED["C07"][1] + "; plus an engine R pass in which the first requests of one kind a client ever makes are issued by several callers at the same moment under real parallelism (a request whose own acknowledgement was delivered on a connection that stayed up has returned by the end of the run)") + CLAIMED["C07"][2:]
 CLAIMED["C17"] = ("S+R",) + CLAIMED["C17"][1:]
 CLAIMED["C16"] = ("S+R", CLAIMED["C16"][1] + "; plus an engine R pass in which Disconnect / Close / peer close / malformed packet of several clients race under real parallelism (callback error vs Err() at that moment and in the end, each state at most once, Done() closed)") + CLAIMED["C16"][2:]
 
@@ -73,7 +74,7 @@ def main():
        "add_only": True,
      },
      "engines": [
-       {"name": "R", "path": "/verif/sim (same module, built with -race)", "serves_properties": ["C10", "C15", "C16", "C17"], "kind_free_text": "the same simulator free-running inside a synctest bubble under the Go race detector, GOMAXPROCS=8; not schedule-replayable: replay = re-execution until the same access pair is reported (<= 20 tries)"},
+       {"name": "R", "path": "/verif/sim (same module, built with -race)", "serves_properties": ["C07", "C10", "C15", "C16", "C17"], "kind_free_text": "the same simulator free-running inside a synctest bubble under the Go race detector, GOMAXPROCS=8; not schedule-replayable: replay = re-execution until the same access pair is reported (<= 20 tries)"},
        {"name": "S", "path": "/verif/sim", "serves_properties": sorted(CLAIMED), "kind_free_text": "deterministic discrete-event simulator inside a testing/synctest bubble: scenario-as-data, one external event per quiescence, SimConn/SimDialer/Broker model, fake clock; real mqtt-go code incl. its goroutines"},
      ],
      "checks": [],
